@@ -15,11 +15,14 @@ Fixpoint digits_val (s : bytes) (acc : Z) : option Z :=
   | [] => Some acc
   | c :: r => if is_digit c then digits_val r (acc * 10 + (Z.of_N c - 48)) else None
   end.
+Definition sign_of (s : bytes) : bool * bytes :=
+  match s with
+  | 45%N :: r => (true, r)
+  | 43%N :: r => (false, r)
+  | _ => (false, s)
+  end.
 Definition atoi (s : bytes) : option Z :=
-  let '(neg, d) := match s with
-                   | 45%N :: r => (true, r)
-                   | 43%N :: r => (false, r)
-                   | _ => (false, s) end in
+  let '(neg, d) := sign_of s in
   match d with
   | [] => None
   | _ =>
